@@ -163,6 +163,7 @@ def commit_phase(ck, prog):
 
 
 def layer_loop(ck, prog, vg):
+    vg = prog.inl(vg)   # the loops may live in private methods verify_generic was split into
     fl = flow(vg)
     # the range iterated by the layer loop: an `into_iter` of Range whose end originates in num_fri_layers
     found = False
